@@ -55,6 +55,16 @@ def at_removal(formula, mass, envp, exposure):
     return [(a.isotope, a.daughter, a.reaction, a.Thalf_hrs, float(Ia[0])) for a, Ia in s.activity.items()]
 
 
+def rest_signature(a0, To):
+    """decay_time extrapolates back from the smallest requested rest time To.  That is exact arithmetic-wise unless a product
+    has a half-life so short that its activity at To has underflowed (or exp(La To) overflows): To/T above about 1000.  The
+    recorded finding is that case; a dependence on the rest-time list without any such product is something else."""
+    short = any(x > 0 and T > 0 and To / T > 1000 for _, _, _, T, x in a0)
+    if not short:
+        return "C15:depends-on-rest-times:no-short-lived-product"
+    return "C15:depends-on-rest-times:%s" % ("smallest-rest-time-%g" % To if To in (0, 0.5, 1, 2, 24) else "other")
+
+
 def true_activity(a0, t):
     return sum((D(x) * (-(LN2 * D(t) / D(T))).exp() for _, _, _, T, x in a0), D(0))
 
@@ -160,7 +170,7 @@ def sample_cases(rng, fails, formula, mass, envp, exposure, rest_lists, factors)
                 To = min(rest)
                 what = ("decay_time(%r) is %r with rest_times=%r but %r with rest_times=%r"
                         % (where["target"], (repr(out) if isinstance(out, BaseException) else out), rest, o0, r0))
-                fails.add("C15:depends-on-rest-times:%s" % ("smallest-rest-time-%g" % To if To in (0, 0.5, 1, 2, 24) else "other"),
+                fails.add(rest_signature(a0, To),
                           what, other_rest_times=r0, other_outcome=o0, observed=(repr(out) if isinstance(out, BaseException) else out), **where)
     return cases, meta
 
@@ -190,7 +200,7 @@ def main(argv):
                 abs(float(o1) - float(o0)) <= 1e-6 * max(1.0, abs(float(o0)))
             if not same:
                 To = min(r1)
-                fails.add("C15:depends-on-rest-times:%s" % ("smallest-rest-time-%g" % To if To in (0, 0.5, 1, 2, 24) else "other"),
+                fails.add(rest_signature(a0, To),
                           "decay_time(%r) is %r with rest_times=%r but %r with rest_times=%r" % (d["target"], o1, r1, o0, r0))
         json.dump(dict(cases=cases, meta=meta, direct_fails=fails), sys.stdout)
         return
@@ -222,9 +232,10 @@ def main(argv):
         meta += m
     # samples in which one daughter is reached by several routes whose rows carry different half-lives (Ba-137m, Sm-151,
     # Sc-47, ...): the activity that reaches the target is the sum over the rows as tabulated, route by route
-    for formula, envp in (("Ba[136]Ba[137]", (1e8, 0.0, 10.0)), ("Nd9Sm", (1e8, 0.0, 0.0)), ("Sc[45]Ti", (1e8, 0.0, 50.0)),
-                          ("Al28Si", (1e8, 0.0, 50.0)))[: (2 if n <= 12 else 4)]:
-        c, m = sample_cases(rng, fails, formula, 1.0, envp, 10.0, [[0, 1, 24, 360]], [1e-9, 1e-6, 1e-3, 0.03, 0.3, 0.6])
+    for formula, envp in (("Ba[136]Ba[137]", (1e8, 0.0, 10.0)), ("Nd9Sm", (1e8, 0.0, 0.0)), ("Te", (1e8, 0.0, 0.0)), ("Sc[45]Ti", (1e8, 0.0, 50.0)),
+                          ("Al28Si", (1e8, 0.0, 50.0)), ("Ru", (1e8, 0.0, 0.0)), ("Gd2O3", (1e8, 0.0, 0.0)))[: (3 if n <= 12 else 7)]:
+        # (with rest-time lists that lack 0 as well: products fed by the decay of an activated parent are among these)
+        c, m = sample_cases(rng, fails, formula, 1.0, envp, 10.0, [[0, 1, 24, 360], [24], [1, 24]], [1e-9, 1e-6, 1e-3, 0.03, 0.3, 0.6])
         cases += c
         meta += m
     # histories on one Sample object: calculate, ask, calculate again under other conditions (same rest times), ask
